@@ -86,14 +86,25 @@ func (x *exchange) startLine() string {
 }
 
 // wantStartLine is the status line the property promises the client, stated on the origin's line alone:
-// the same version, code and reason phrase, separated by one blank each. The one normalisation of the
-// phrase (net/http, both writers; c02_status_line_bare_code): a line that ends after the code — no
-// blank, no phrase — is written with the code repeated in the phrase position.
-func (x *exchange) wantStartLine() string {
+// the same version, code and reason phrase, separated by one blank each. An origin line that ends after
+// the code has no phrase: the client is promised none either (with or without the blank after the code).
+func (x *exchange) wantStartLine(got string) bool {
 	if x.NoReasonSP {
-		return fmt.Sprintf("HTTP/1.%d %d %d", x.Minor, x.Status, x.Status)
+		bare := fmt.Sprintf("HTTP/1.%d %d", x.Minor, x.Status)
+		return got == bare || got == bare+" "
 	}
-	return fmt.Sprintf("HTTP/1.%d %d %s", x.Minor, x.Status, x.reason())
+	return got == fmt.Sprintf("HTTP/1.%d %d %s", x.Minor, x.Status, x.reason())
+}
+
+// statusLineClass: the known-finding class of the status-line clause, decided from the input alone. F50: an
+// origin line with a bare code (no blank, no phrase; codes 100-999) is written with the code repeated in the
+// phrase position by net/http's Response.Write and by martian's copy of it (c02_status_line_bare_code).
+// WHAT the client gets on such a line is still held to the model (a correspondence break is a VIOLATION).
+func (x *exchange) statusLineClass() string {
+	if x.NoReasonSP && x.Status >= 100 && x.Status <= 999 {
+		return "bare-code-status-line-stutters" // F50
+	}
+	return ""
 }
 
 // statusLineOf returns the first line of a head without its line terminator.
@@ -579,8 +590,8 @@ func specViolations(rules []string, x *exchange, res *rig.Msg, rerr error) []vio
 	if res.Status != x.Status {
 		add("same status", "", fmt.Sprintf("%d vs %d", res.Status, x.Status))
 	}
-	if got, want := statusLineOf(res.HeadBytes), x.wantStartLine(); got != want {
-		add("same status line: version, code and reason phrase", "", fmt.Sprintf("%q vs %q", got, want))
+	if got := statusLineOf(res.HeadBytes); !x.wantStartLine(got) {
+		add("same status line: version, code and reason phrase", x.statusLineClass(), fmt.Sprintf("client got %q, the origin sent %q", got, x.startLine()))
 	}
 	in := (&rig.Msg{Fields: x.Fields}).FieldMap()
 	out := res.FieldMap()
@@ -931,8 +942,8 @@ func genExchangeF(r *core.Rand, last bool, fc forced) *exchange {
 //
 //	standard        the registered phrase of the code
 //	empty           the blank after the code, then nothing
-//	bare            nothing after the code, not even the blank (written with the code repeated: the one
-//	                normalisation of the phrase, see wantStartLine)
+//	bare            nothing after the code, not even the blank (the code writes it with the code repeated in the
+//	                phrase position: known finding F50, see statusLineClass)
 //	letter          custom, starts with a letter
 //	code-digit      starts with a digit that occurs in the status code ("204 2 rows deleted")
 //	other-digit     starts with a digit that does not occur in the code
